@@ -39,6 +39,17 @@ func extend(s []byte) []byte {
 // SHA1 derives n octets for purpose id from the (already BMP-formatted)
 // password, salt and iteration count r >= 1.
 func SHA1(id byte, password, salt []byte, r, n int) []byte {
+	return SHA1Trace(id, password, salt, r, n, nil)
+}
+
+// SHA1Trace is SHA1 with an observer for step 6.C: after every block update
+// it reports the round (1-based), the block index, how many leading zero
+// octets the updated block has and whether the addition carried out of the
+// block (mod 2^(8v) took effect). The observer sees every round, including the
+// update after the last A_i (which cannot influence the output). Harnesses use
+// it to pick (password, salt) pairs whose blocks hit the short-number and
+// wrap-around cases of implementations that do 6.C with bignums.
+func SHA1Trace(id byte, password, salt []byte, r, n int, on func(round, block, leadingZeros int, carryOut bool)) []byte {
 	// 1. D = v copies of ID
 	D := make([]byte, v)
 	for i := range D {
@@ -68,6 +79,13 @@ func SHA1(id byte, password, salt []byte, r, n int) []byte {
 				s := int(I[j+k]) + int(B[k]) + carry
 				I[j+k] = byte(s)
 				carry = s >> 8
+			}
+			if on != nil {
+				z := 0
+				for z < v && I[j+z] == 0 {
+					z++
+				}
+				on(i, j/v, z, carry != 0)
 			}
 		}
 	}
